@@ -310,7 +310,12 @@ fn dependency_cases(rep: &Report) {
 
 fn guard_cases(rep: &Report) {
     // the binary refuses to start when TXTPP_FILE is already set — in every mode; nothing is touched
-    for (mode_args, value) in [(vec![], "whatever"), (vec!["-N"], "whatever"), (vec!["verify"], "whatever"), (vec!["clean"], "whatever"), (vec![], " "), (vec!["verify"], "x y")] {
+    // (values that are not UTF-8 are "set" too)
+    let values: [(Vec<&str>, &[u8]); 9] = [(vec![], b"whatever"), (vec!["-N"], b"whatever"), (vec!["verify"], b"whatever"), (vec!["clean"], b"whatever"), (vec![], b" "), (vec!["verify"], b"x y"), (vec![], b"\xff"), (vec!["clean"], b"caf\xe9/s.txt.txtpp"), (vec!["-N"], b"\xc3")];
+    for (mode_args, value) in values {
+        use std::os::unix::ffi::OsStrExt;
+        let value_os = std::ffi::OsStr::from_bytes(value);
+        let value = show(value);
         let l = layout(1, "equal");
         std::fs::write(l.src_dir.join("s.txt.txtpp"), "x\n-TXTPP#temp t.out\n-y\n").unwrap();
         std::fs::write(l.src_dir.join("s.txt"), "old\n").unwrap();
@@ -319,7 +324,7 @@ fn guard_cases(rep: &Report) {
         let before = snapshot(&l.base);
         let mut args: Vec<&str> = mode_args.clone();
         args.extend(["-q", "-r", "."]);
-        let (code, to) = run_cli(&l.cwd, &args, &[("TXTPP_FILE", value)], 30.0);
+        let (code, to) = run_cli_os(&l.cwd, &args, &[("TXTPP_FILE", value_os)], 30.0);
         rep.tv(1);
         rep.add("guard_cases", 1);
         let after = snapshot(&l.base);
@@ -333,21 +338,27 @@ fn guard_cases(rep: &Report) {
         }
         // empty value: README says "if set"; the code treats empty as unset — not compared
     }
-    // a source that calls the txtpp binary: the inner txtpp must refuse, so the build fails
-    let l = layout(0, "equal");
-    std::fs::write(l.base.join("s.txt.txtpp"), "-TXTPP#run txtpp -q inner\n").unwrap();
-    std::fs::create_dir_all(l.base.join("inner")).unwrap();
-    std::fs::write(l.base.join("inner/i.txt.txtpp"), "inner\n").unwrap();
-    let path = format!("{}:{}", production_cli().parent().unwrap().display(), std::env::var("PATH").unwrap_or_default());
-    let (code, to) = run_cli(&l.cwd, &["-q", "s.txt"], &[("PATH", &path)], 30.0);
-    rep.tv(1);
-    rep.add("guard_cases", 1);
-    if to || code != 1 || l.base.join("inner/i.txt").exists() {
-        rep.violate(
-            "recursion-into-txtpp",
-            format!("a run command that calls txtpp: outer exit {code} timeout={to}, inner output exists: {}", l.base.join("inner/i.txt").exists()),
-            json!({"engine": "E-conf", "guard": "recursion"}),
-        );
+    // a source that calls the txtpp binary: the inner txtpp must refuse, so the build fails -
+    // also when the source's own name or directory is not valid UTF-8 (whatever TXTPP_FILE then holds, it is set)
+    for (dir, name) in [(&b""[..], &b"s.txt.txtpp"[..]), (b"", b"caf\xff.txt.txtpp"), (b"d\xe9", b"s.txt.txtpp")] {
+        use std::os::unix::ffi::OsStrExt;
+        let l = layout(0, "equal");
+        let d = l.base.join(std::ffi::OsStr::from_bytes(dir));
+        std::fs::create_dir_all(&d).unwrap();
+        std::fs::write(d.join(std::ffi::OsStr::from_bytes(name)), "-TXTPP#run txtpp -q ../inner || txtpp -q inner\n").unwrap();
+        std::fs::create_dir_all(l.base.join("inner")).unwrap();
+        std::fs::write(l.base.join("inner/i.txt.txtpp"), "inner\n").unwrap();
+        let path = format!("{}:{}", production_cli().parent().unwrap().display(), std::env::var("PATH").unwrap_or_default());
+        let (code, to) = run_cli(&l.cwd, &["-q", "-r", "."], &[("PATH", &path)], 30.0);
+        rep.tv(1);
+        rep.add("guard_cases", 1);
+        if to || code != 1 {
+            rep.violate(
+                "recursion-into-txtpp",
+                format!("a run command in {:?}/{:?} that calls txtpp: outer exit {code} timeout={to} (the inner txtpp must refuse to start, which fails the command)", show(dir), show(name)),
+                json!({"engine": "E-conf", "guard": "recursion"}),
+            );
+        }
     }
 }
 
